@@ -261,12 +261,39 @@ done:
   sq_detail("%ld init/fini histories to depth %d + worker counts 1..64 + two long histories (300/600 and 150 cycles in one process); ", hist_cases, depth);
 }
 
+/* the CPU table is rebuilt at every initialisation: building it again must give the table of the first time (a differential oracle: the
+   state reached from the initial state vs. the state reached from an initialised one), for as many initialisations as one likes */
+static void cpu_table_histories(int cycles) {
+  static const char * const lists[] = { 0, "0", "0-3", "0,2" };
+  for (unsigned v = 0; v < sizeof lists / sizeof lists[0]; v++) {
+    if (lists[v]) setenv("MYTH_CPU_LIST", lists[v], 1); else unsetenv("MYTH_CPU_LIST");
+    n_available_cpus = -1;
+    int first_n = -1, first_cpu[8]; char key[120];
+    snprintf(key, sizeof key, "CPU table rebuilt %d times, MYTH_CPU_LIST=%s", cycles, lists[v] ? lists[v] : "(unset)");
+    for (int i = 0; i < cycles; i++) {
+      int crashed = 0;
+      trapping = 1;
+      if (sigsetjmp(trap, 1) == 0) myth_get_available_cpus(); else crashed = 1;
+      trapping = 0;
+      SQ.transitions++;
+      if (crashed) { sq_found(key, "", "rebuild #%d aborts: %s", i, trap_msg); break; }
+      if (i == 0) { first_n = n_available_cpus; for (int r = 0; r < 8; r++) first_cpu[r] = myth_get_worker_cpu(r); continue; }
+      if (n_available_cpus != first_n || n_available_cpus > N_MAX_CPUS) { sq_found(key, "", "the table holds %d CPUs after rebuild #%d, %d after the first (entries accumulate across initialisations; the table has room for %d)", n_available_cpus, i, first_n, N_MAX_CPUS); break; }
+      int diff = 0; for (int r = 0; r < 8; r++) if (myth_get_worker_cpu(r) != first_cpu[r]) diff = 1;
+      if (diff) { sq_found(key, "", "worker-to-CPU assignment after rebuild #%d differs from the first", i); break; }
+    }
+    SQ.states++; SQ.evaluations++;
+  }
+  unsetenv("MYTH_CPU_LIST");
+  sq_detail("CPU table rebuilt %d times x 4 CPU lists; ", cycles);
+}
+
 int main(int argc, char ** argv) {
   const char * stats = "build/c15/stats.json"; int tier = 0; const char * part = "all";
   for (int i = 1; i < argc; i++) { if (!strcmp(argv[i], "--stats")) stats = argv[++i]; else if (!strcmp(argv[i], "--tier")) tier = !strcmp(argv[++i], "thorough"); else if (!strcmp(argv[i], "--part")) part = argv[++i]; }
   sq_begin("C15", "c15", "E3 seqmc (bounded exhaustive inputs / histories vs reference recogniser and model)", "replays", argv[0]);
   if (!freopen("/dev/null", "w", stderr)) {}
-  if (!strcmp(part, "all") || !strcmp(part, "parser")) parser_all(tier ? 6 : 5);
+  if (!strcmp(part, "all") || !strcmp(part, "parser")) { parser_all(tier ? 6 : 5); cpu_table_histories(tier ? 400 : 100); }
   if (!strcmp(part, "all") || !strcmp(part, "env")) {
     env_var("MYTH_NUM_WORKERS", 3); env_var("MYTH_DEF_STKSIZE", tier ? 3 : 2); env_var("MYTH_BIND_WORKERS", 2);
     static const char * const lists[] = { "", "0", "0-3", "\n", "0,\n", "0\n", "x", "0-", "0-3:0", "99999", "0-2000", 0 };
